@@ -148,7 +148,13 @@ void atomic_intrusive_list_impl<Latch>::push_back_impl(node* item) noexcept {
     if (!try_lock_checking(*pred_link, sentinel_.self, pred_link, pred_val)) {
       continue;
     }
-    UNIFEX_ASSERT(pred_val == to_value(&sentinel_));
+    if (pred_val != to_value(&sentinel_)) {
+      // The link was changed and changed back between try_lock_checking's
+      // last look at sentinel_.self and its CAS (the node it points to was
+      // removed and linked again), so it is no longer the tail link.
+      unlock(*pred_link, pred_val);
+      continue;
+    }
 
     item->self.store(pred_link, std::memory_order_release);
     sentinel_.self.store(&item->rest, std::memory_order_release);
@@ -238,10 +244,13 @@ void atomic_intrusive_list_impl<Latch>::drain_into_impl(
   while (true) {
     pred_link = sentinel_.self.load(std::memory_order_acquire);
     if (try_lock_checking(*pred_link, sentinel_.self, pred_link, pred_val)) {
-      break;
+      if (pred_val == to_value(&sentinel_)) {
+        break;
+      }
+      // not the tail link any more (see push_back_impl)
+      unlock(*pred_link, pred_val);
     }
   }
-  UNIFEX_ASSERT(pred_val == to_value(&sentinel_));
 
   // Retarget source sentinel to head before unlocking, so a
   // concurrent push_back targets head_ (which we still hold).
@@ -319,10 +328,13 @@ void atomic_intrusive_list_impl<Latch>::latch_and_drain_impl(
     while (true) {
       pred_link = sentinel_.self.load(std::memory_order_acquire);
       if (try_lock_checking(*pred_link, sentinel_.self, pred_link, pred_val)) {
-        break;
+        if (pred_val == to_value(&sentinel_)) {
+          break;
+        }
+        // not the tail link any more (see push_back_impl)
+        unlock(*pred_link, pred_val);
       }
     }
-    UNIFEX_ASSERT(pred_val == to_value(&sentinel_));
 
     sentinel_.self.store(nullptr, std::memory_order_relaxed);
     sentinel_latch_.self.store(&head_, std::memory_order_release);
